@@ -316,6 +316,7 @@ func OpenRelation(dbName string, forceWALSync bool) (*RelationService, error) {
 	if err != nil {
 		return nil, err
 	}
+	verifPoint("store.open", 0)
 	if err := fs.open(); err != nil {
 		return nil, err
 	}
